@@ -304,6 +304,7 @@ type Conn struct {
 	// OnOpenStream runs inside OpenStream after the stream was made and before it is returned (e.g.
 	// to close the connection at exactly that point).
 	OnOpenStream func()
+	dead         atomic.Bool
 	streams      atomic.Int64
 }
 
@@ -327,7 +328,15 @@ func (c *Conn) RemoteClose() { c.once.Do(func() { close(c.closed) }) }
 // Streams is the number of streams the fake muxer opened (outbound).
 func (c *Conn) Streams() int64 { return c.streams.Load() }
 
+// DieSilently: the transport under the connection is gone (IsClosed reports true, streams cannot be
+// opened) but the accept loop has not noticed yet - AcceptStream keeps blocking, so the swarm has not
+// reaped the connection.
+func (c *Conn) DieSilently() { c.dead.Store(true) }
+
 func (c *Conn) IsClosed() bool {
+	if c.dead.Load() {
+		return true
+	}
 	select {
 	case <-c.closed:
 		return true
